@@ -68,9 +68,9 @@ PLAN = {
         "prop": [],
         "mc_quick": ["CfgsQ1"],
         "vacuity": [("DevFresh", "CfgsQ1", "NoZombie"), ("DevGate", "CfgsQ1", "NoZombie"), ("DevNoRemove", "CfgsQ1", "Forgotten")],
-        "scen_quick": ["h1-max1-A", "h1-max1-AA", "h1-tls-max1-AAB", "h2-max1-AA", "tun-max1-AAB"],
-        "scen_thorough": ["h1-max1-A", "h1-max1-AA", "h1-max1-AAB", "h1-tls-max1-AAB", "h1-max1-close", "h1-max1-abandon", "h1-guess-max1", "h1-max2-ABA-keep1", "h2-max1-AA", "h2-max1-AAB", "tun-max1-AAB", "fwd-max1-AAB", "socks-max1-AAB"],
-        "strategies": ["base", "fault", "cancel-scope", "cancel-native"],
+        "scen_quick": ["h1-max1-A", "h1-max1-AA", "h1-tls-max1-AAB", "h2-max1-AA", "tun-max1-AAB", "h1-max1-pto"],
+        "scen_thorough": ["h1-max1-A", "h1-max1-AA", "h1-max1-AAB", "h1-tls-max1-AAB", "h1-max1-close", "h1-max1-abandon", "h1-guess-max1", "h1-max2-ABA-keep1", "h2-max1-AA", "h2-max1-AAB", "tun-max1-AAB", "fwd-max1-AAB", "socks-max1-AAB", "h1-max1-pto", "h1-max1-pto-AB"],
+        "strategies": ["base", "fault", "cancel-scope", "cancel-native", "time"],
     },
     "C06": {
         "mc_thorough": ["CfgsMbase"],
@@ -78,7 +78,7 @@ PLAN = {
         "prop": [],
         "mc_quick": ["CfgsQ1"],
         "vacuity": [("DevEstab", "CfgsQ1", "StreamOwned")],
-        "scen_quick": ["h1-max1-AA", "h1-tls-max1-AAB", "h2-max1-AAB", "tun-max1-AAB", "socks-max1-AAB"],
+        "scen_quick": ["h1-max1-AA", "h1-tls-max1-AAB", "h2-max1-AAB", "tun-max1-AAB", "socks-max1-AAB", "h2-max1-AA"],
         "scen_thorough": ["h1-max1-A", "h1-max1-AA", "h1-max1-AAB", "h1-tls-max1-AAB", "h1-max1-close", "h1-max1-abandon", "h1-max2-ABC-keep0", "h2-max1-AAB", "h2-max1-AA", "tun-max1-AAB", "fwd-max1-AAB", "socks-max1-AAB"],
         "strategies": ["base", "fault", "cancel-scope", "cancel-native", "poolclose"],
     },
@@ -388,7 +388,8 @@ class PoolRunner:
             if not devs:
                 self.chk.classify({"module": "Pool", "deviation": ["<none>"], "stimulus": it["meta"]["stimuli"]}, what, replay)
             elif mode == "single":
-                # alternatives: the first one that is a listed finding decides
+                # alternatives: each of them alone explains the trace; every one that is a listed
+                # finding is counted (they are different readings of the same execution)
                 done = False
                 for dname in devs:
                     sig = {"module": "Pool", "deviation": [dname], "stimulus": it["meta"]["stimuli"]}
@@ -396,7 +397,6 @@ class PoolRunner:
                     if f is not None:
                         self.chk.classify(sig, what, replay)
                         done = True
-                        break
                 if not done:
                     self.chk.classify({"module": "Pool", "deviation": devs, "stimulus": it["meta"]["stimuli"]}, what, replay)
             else:
